@@ -898,6 +898,36 @@ func lemmaActivationFollowsLastEpoch(b *baseEnabled, e1, e2 uint32, t1, t2 uint6
 //@   ensures[C18] r == (e2 >= old(b.activationEpoch))
 //@   modifies b.flagActivated.value
 
+// Activation state at construction (C18): a constructor registers the new function with the epoch notifier,
+// which confirms its current epoch (ghost regEpoch, A18) to it; from then on the function must report active
+// exactly when that epoch is >= its activation epoch, with the configured activation epoch in place.
+func lemmaMultiTransferActiveAtConstruction(funcGasCost uint64, m vmcommon.Marshalizer, p vmcommon.ESDTPauseHandler, a vmcommon.AccountsAdapter, s vmcommon.Coordinator, g vmcommon.BaseOperationCost, activationEpoch uint32, n vmcommon.EpochNotifier) (*esdtNFTMultiTransfer, error) {
+	return NewESDTNFTMultiTransferFunc(funcGasCost, m, p, a, s, g, activationEpoch, n)
+}
+
+//@ func lemmaMultiTransferActiveAtConstruction
+//@   results e, err
+//@   ensures[C18] err == nil ==> e != nil && e.baseEnabled != nil && e.baseEnabled.activationEpoch == activationEpoch && (e.baseEnabled.flagActivated.value == 1) == (regEpoch >= activationEpoch)
+//@   modifies new(builtInFunctions.esdtNFTMultiTransfer), new(builtInFunctions.baseEnabled), new(builtInFunctions.disabledPayableHandler)
+
+func lemmaAddUriActiveAtConstruction(funcGasCost uint64, g vmcommon.BaseOperationCost, m vmcommon.Marshalizer, p vmcommon.ESDTPauseHandler, r vmcommon.ESDTRoleHandler, activationEpoch uint32, n vmcommon.EpochNotifier) (*esdtNFTAddUri, error) {
+	return NewESDTNFTAddUriFunc(funcGasCost, g, m, p, r, activationEpoch, n)
+}
+
+//@ func lemmaAddUriActiveAtConstruction
+//@   results e, err
+//@   ensures[C18] err == nil ==> e != nil && e.baseEnabled != nil && e.baseEnabled.activationEpoch == activationEpoch && (e.baseEnabled.flagActivated.value == 1) == (regEpoch >= activationEpoch)
+//@   modifies new(builtInFunctions.esdtNFTAddUri), new(builtInFunctions.baseEnabled)
+
+func lemmaUpdateAttributesActiveAtConstruction(funcGasCost uint64, g vmcommon.BaseOperationCost, m vmcommon.Marshalizer, p vmcommon.ESDTPauseHandler, r vmcommon.ESDTRoleHandler, activationEpoch uint32, n vmcommon.EpochNotifier) (*esdtNFTupdate, error) {
+	return NewESDTNFTUpdateAttributesFunc(funcGasCost, g, m, p, r, activationEpoch, n)
+}
+
+//@ func lemmaUpdateAttributesActiveAtConstruction
+//@   results e, err
+//@   ensures[C18] err == nil ==> e != nil && e.baseEnabled != nil && e.baseEnabled.activationEpoch == activationEpoch && (e.baseEnabled.flagActivated.value == 1) == (regEpoch >= activationEpoch)
+//@   modifies new(builtInFunctions.esdtNFTupdate), new(builtInFunctions.baseEnabled)
+
 // ---- guarded-by discipline (C19): cost fields are read under the read lock and written under the write lock ----
 
 //@ guarded changeOwnerAddress .gasCost by .mutExecution
